@@ -236,3 +236,251 @@ def _rerun_hh(pid):
 rerun_C03 = _rerun_hh("C03")
 rerun_C04 = _rerun_hh("C04")
 rerun_C13 = _rerun_hh("C13")
+
+
+# =============================================================================== count-min: C05 C06 C09 C18 (linear + log)
+
+
+def _only(res, pid):
+    res.oracle_failures = [f for f in res.oracle_failures if f.get("pid", pid) == pid]
+
+
+def check_C05(tier, seed):
+    import slice_cms
+    import slice_log
+
+    pid = "C05"
+    res = Result(pid, tier, seed)
+    res.rule = ("linear: random + exhaustive-small histories as in C01, here with EXACT comparison of the whole table, n_added and all estimates after every add, plus the one-step oracle "
+                "(own estimate = min(old+v, 2^32-1); no other estimate falls or ends above max(own old, added key's new); ≤ 1 cell per row changes; n_added grows by v when uncut). "
+                "log8/log16: unit/multi-step adds with placed draws on every counter class × configuration grid (log_step), random histories with two-point draws (log_history) "
+                "compared cell by cell incl. consumed draws. Non-trivial: shared cell or ceiling hit (linear), distinct (config, counter, draw side, v) (log).")
+    lean = lean_check(pid)
+    rng = rng_for(seed, pid)
+    slice_cms.run_slice(res, rng, tier, {pid}, {"exact"}, 200 if tier == QUICK else 4000, 12 if tier == QUICK else 200, exhaustive_len=2 if tier == QUICK else 3)
+    slice_log.log_step(res, rng, tier)
+    slice_log.log_history(res, rng, tier, {pid}, 150 if tier == QUICK else 3000, 12 if tier == QUICK else 200)
+    _only(res, pid)
+
+    def search():
+        r2 = Result(pid, tier, seed)
+        g = rng_for(seed, pid + "/search")
+        slice_cms.run_slice(r2, g, "thorough", {pid}, set(), 100000, 100 if tier == QUICK else 400, exhaustive_len=3, label="search")
+        slice_log.log_history(r2, g, "thorough", {pid}, 100000, 100 if tier == QUICK else 400)
+        _only(r2, pid)
+        return r2.oracle_failures
+
+    return finish(res, lean, "proof", search, _sig,
+                  assumptions=["log theorems hold for arbitrary draws and an arbitrary decision function with inc(0,u)=true; the float decision rand < base**-c' is tied by log_step"])
+
+
+def check_C06(tier, seed):
+    import slice_log
+
+    pid = "C06"
+    res = Result(pid, tier, seed)
+    res.rule = ("log_step: every counter class (0, nr-1..nr+3, max-2..max, random; all 256 for log8 in thorough) × grid of (max_count,num_reserved) × draws placed at 0, 1-2^-53, "
+                "thr·(1∓1e-9) × v∈{1,3}; log_history: random histories with adds/merges/add_ngram on shared cells, oracle estimate ≥ min(true, nr+1) and exactness for collision-free "
+                "keys; rand_refill: seeded Numba generator, runs crossing 1-2 refills, consumed positions and refilled batch compared with the model's stream. In thorough additionally "
+                "a seeded Monte-Carlo comparison of mean estimates with the true count (refutation search, not a proof).")
+    lean = lean_check(pid)
+    rng = rng_for(seed, pid)
+    slice_log.log_step(res, rng, tier)
+    slice_log.log_history(res, rng, tier, {pid}, 200 if tier == QUICK else 3000, 14 if tier == QUICK else 200)
+    slice_log.rand_refill(res, rng, tier)
+    if tier != QUICK:
+        _log_unbiased_mc(res, rng)
+    _only(res, pid)
+
+    def search():
+        r2 = Result(pid, tier, seed)
+        g = rng_for(seed, pid + "/search")
+        slice_log.log_step(r2, g, "thorough")
+        slice_log.log_history(r2, g, "thorough", {pid}, 100000, 120 if tier == QUICK else 400)
+        _log_unbiased_mc(r2, g)
+        _only(r2, pid)
+        return r2.oracle_failures
+
+    return finish(res, lean, "proof", search, _sig,
+                  assumptions=["P(rand < base^-c') = base^-c': uniformity and independence of the PRNG draws is assumed (trusted base); only the use of the draws is proved",
+                               "chain_mean is over an arbitrary field with exact base; the float evaluation of base**-c' is tied by log_step with a 1e-9 margin"])
+
+
+def _log_unbiased_mc(res, rng):
+    """refutation search: mean decoded estimate of N unit adds vs N (Hoeffding-style bound via empirical variance, 8 sigma)"""
+    import slice_log
+    from real import np
+
+    t0 = time.time()
+    for kind, mc, nr, N, runs in (("log8", 2**32 - 1, 15, 500, 3000), ("log8", 10**6, 100, 2000, 1500), ("log16", 2**32 - 1, 1023, 5000, 600)):
+        try:
+            cm = slice_log.make(kind, runs, 1, mc, nr)
+        except ValueError:
+            continue
+        # `runs` independent counters in one row: width=runs, keys chosen to hit distinct columns is not needed — set counters directly by adding to each column via distinct keys
+        probe = {}
+        i = 0
+        keys = []
+        while len(keys) < min(runs, 400) and i < 100000:
+            k = i.to_bytes(4, "little")
+            i += 1
+            cm2 = None
+            col = None
+            # column of k: query then read buckets
+            cm.query(k)
+            col = int(cm.buckets[0])
+            if col not in probe:
+                probe[col] = k
+                keys.append(k)
+        for k in keys:
+            cm.add(k, N)
+        ests = np().array([float(cm.query(k)) for k in keys])
+        mean = float(ests.mean())
+        se = float(ests.std(ddof=1) / (len(keys) ** 0.5))
+        res.count("mc_counters", len(keys))
+        res.evaluations += len(keys)
+        if abs(mean - N) > 8 * se + 1e-9:
+            res.oracle_failures.append({"pid": "C06", "what": f"C06 unbiasedness (search): {kind}(max_count={mc},num_reserved={nr}) mean estimate of {N} unit adds over {len(keys)} "
+                                        f"independent counters = {mean:.2f} (standard error {se:.2f})", "kind": kind})
+    res.slices["log_unbiased_mc"] = {"wall_s": round(time.time() - t0, 1)}
+
+
+def check_C09(tier, seed):
+    import slice_cms
+    import slice_log
+
+    pid = "C09"
+    res = Result(pid, tier, seed)
+    res.rule = ("linear: histories with merges (exact table comparison, cell = min(a+b, 2^32-1), argument untouched, bookkeeping sums, merged estimate ≥ sum of estimates); "
+                "log8: ALL 256×256 counter pairs per configuration (real merge vs the Lean float mirror exactly, vs the Lean exact nearest-counter specification over scaled integers, "
+                "and vs an exact Fraction oracle; ties within 1e-9 of the gap accept either neighbour); log16: all 65536 counters against the empty sketch and sampled pairs incl. "
+                "reserved-range and near-ceiling counters vs a 50-digit oracle. Non-trivial: each (kind, configuration) block and each linear history with a shared cell.")
+    lean = lean_check(pid)
+    rng = rng_for(seed, pid)
+    slice_cms.run_slice(res, rng, tier, {pid}, {"exact", "contract"}, 150 if tier == QUICK else 3000, 10 if tier == QUICK else 150)
+    slice_log.merge_pairs(res, rng, tier, {pid})
+    slice_log.log_history(res, rng, tier, {pid}, 80 if tier == QUICK else 1500, 8 if tier == QUICK else 120)
+    _only(res, pid)
+
+    def search():
+        r2 = Result(pid, tier, seed)
+        g = rng_for(seed, pid + "/search")
+        slice_cms.run_slice(r2, g, "thorough", {pid}, set(), 100000, 60, label="search")
+        slice_log.merge_pairs(r2, g, "thorough", {pid})
+        _only(r2, pid)
+        return r2.oracle_failures
+
+    return finish(res, lean, "proof", search, _sig,
+                  assumptions=["the log merge is evaluated in float64 by the code; the theorems are about the exact nearest-counter specification, tied to the code by all-pairs comparison",
+                               "base is taken as the exact rational value of the sketch's float64 `base` attribute"])
+
+
+def check_C18(tier, seed):
+    import slice_cms
+    import slice_log
+
+    pid = "C18"
+    res = Result(pid, tier, seed)
+    res.rule = ("linear: histories whose multiplicities land within ±3 of 2^32-1 from below and beyond, repeated after saturation, merges at the ceiling: no estimate or counter ever "
+                "falls, the ceiling is sticky; log: log_step at max-2..max, histories and all-pairs merges (merged counter never below an input); heavy hitters: saturating adds/merges of a key "
+                "alone in its cells; find_base: grid of max_count 300..2^63 × num_reserved: the top counter decodes to max_count within 1e-6 or the constructor raises ValueError.")
+    lean = lean_check(pid)
+    rng = rng_for(seed, pid)
+    slice_cms.run_slice(res, rng, tier, {pid}, {"exact"}, 150 if tier == QUICK else 3000, 9 if tier == QUICK else 150)
+    slice_log.log_history(res, rng, tier, {pid}, 100 if tier == QUICK else 1500, 8 if tier == QUICK else 120)
+    slice_log.merge_pairs(res, rng, tier, {pid}, light=(tier == QUICK))
+    _hh_ceiling(res, rng, tier)
+    _find_base_grid(res, rng, tier)
+    _only(res, pid)
+
+    def search():
+        r2 = Result(pid, tier, seed)
+        g = rng_for(seed, pid + "/search")
+        slice_cms.run_slice(r2, g, "thorough", {pid}, set(), 100000, 90, label="search")
+        slice_log.log_history(r2, g, "thorough", {pid}, 100000, 60)
+        _hh_ceiling(r2, g, "thorough")
+        _find_base_grid(r2, g, "thorough")
+        _only(r2, pid)
+        return r2.oracle_failures
+
+    return finish(res, lean, "proof", search, _sig,
+                  assumptions=["_find_base is a floating-point Newton iteration: its result is checked against its specification on a grid, not proved"])
+
+
+def _hh_ceiling(res, rng, tier):
+    """a key alone in its cells: count = min(f, 2^32-1), only grows, sticky"""
+    from real import CAP, sk
+
+    s = sk()
+    t0 = time.time()
+    n = 0
+    for _ in range(20 if tier == QUICK else 200):
+        w, d = rng.choice([1, 2, 5]), rng.choice([1, 2, 4])
+        key = bytes(rng.randrange(256) for _ in range(rng.randrange(0, 6)))
+        parts = [s.HeavyHitters(w, d, 8) for _ in range(rng.choice([1, 2, 3]))]
+        f = [0] * len(parts)
+        prev = 0
+        for _ in range(rng.randrange(1, 8)):
+            i = rng.randrange(len(parts))
+            cur = int(parts[i][key])
+            v = rng.choice([1, 5, CAP - cur, max(CAP - cur - 1, 0), CAP - cur + 1, CAP, 2**32 + 7, CAP - 3])
+            parts[i].add(key, v)
+            f[i] += v
+            got = int(parts[i][key])
+            if got != min(f[i], CAP):
+                res.oracle_failures.append({"pid": "C18", "what": f"C18 heavy hitters: key alone in its cells, true {f[i]}, hh[key] = {got}, expected min(f, 2^32-1)"})
+            n += 1
+        while len(parts) > 1:
+            b = parts.pop()
+            fb = f.pop()
+            parts[0].merge(b)
+            f[0] += fb
+            got = int(parts[0][key])
+            if got != min(f[0], CAP):
+                res.oracle_failures.append({"pid": "C18", "what": f"C18 heavy hitters: merged count of a key alone in its cells = {got}, expected min({f[0]}, 2^32-1)"})
+            n += 1
+    res.evaluations += n
+    res.count("hh_ceiling_steps", n)
+    res.slices["hh_ceiling"] = {"steps": n, "wall_s": round(time.time() - t0, 1)}
+
+
+def _find_base_grid(res, rng, tier):
+    from fractions import Fraction
+
+    from real import sk
+
+    s = sk()
+    t0 = time.time()
+    n = acc = rej = 0
+    mcs = [300, 1000, 5000, 65536, 10**6, 2**32 - 1, 2**40, 2**63]
+    for cls, um, nrs in ((s.CountMinLog8, 255, [0, 1, 15, 100, 200, 240, 250, 253]), (s.CountMinLog16, 65535, [0, 1, 1023, 30000, 65000, 65533])):
+        for mc in mcs:
+            for nr in nrs:
+                if nr >= mc:
+                    continue
+                n += 1
+                try:
+                    c = cls(1, 1, mc, nr)
+                except ValueError:
+                    rej += 1
+                    continue
+                acc += 1
+                K = um - nr
+                b = float(c.base)
+                if K <= 600:
+                    bf = Fraction(b)
+                    top = float(nr + (bf ** K - 1) / (bf - 1))
+                else:
+                    from decimal import Decimal, getcontext
+                    getcontext().prec = 60
+                    bd = Decimal(b)
+                    top = float(nr + (bd ** K - 1) / (bd - 1))
+                res.nontrivial(["find_base", cls.__name__, mc, nr])
+                if abs(top - mc) > 1e-6 * mc:
+                    res.oracle_failures.append({"pid": "C18", "what": f"C18 {cls.__name__}(max_count={mc}, num_reserved={nr}) accepted with base {b!r}: top counter decodes to {top}, not max_count",
+                                                "signature": f"find_base:{cls.__name__}:{mc}:{nr}"})
+    res.evaluations += n
+    res.count("find_base_grid_points", n)
+    res.count("find_base_accepted", acc)
+    res.count("find_base_rejected", rej)
+    res.slices["find_base"] = {"grid_points": n, "accepted": acc, "rejected": rej, "wall_s": round(time.time() - t0, 1)}
